@@ -66,6 +66,21 @@ func famCache(r *rng) []string {
 	if r.intn(3) == 0 { // non-deterministic extension must never be served from the cache
 		res = append(res, "rf = func(n){ rand(1) + n }", "println(rf(1) == 1, rf(1) == 1)")
 	}
+	if r.intn(3) == 0 { // memoized recursion: named (hits at every level), bound by assignment (the nested frame finds the
+		// caller's reference, which counts as a miss: never stored), through self; printing bodies replay their output
+		n := 3 + r.intn(6)
+		res = append(res, pickS(r,
+			"func fb(n){ if n <= 1 {return n}; fb(n-1) + fb(n-2) }",
+			"fb = func(n){ if n <= 1 {return n}; fb(n-1) + fb(n-2) }",
+			"fb = func(n){ if n <= 1 {return n}; self(n-1) + self(n-2) }",
+			"func fb(n){ print(n, \"\"); if n <= 1 {return n}; fb(n-1) + fb(n-2) }"),
+			fmt.Sprintf("println(fb(%d), fb(%d), fb(%d))", n, n+1, n))
+	}
+	if r.intn(3) == 0 { // a memoized call whose callee is reached through a function-valued outer variable that is only READ,
+		// and a call that writes an outer NON-function variable through a reference it first read (never stored)
+		res = append(res, "hp = func(a){ a + 1 }", "cw = func(n){ hp(n) * 2 }", "println(cw(3), cw(3))",
+			"tot2 = 0", "ad = func(n){ t = tot2; tot2 = t + n; tot2 }", "println(ad(2), ad(2), tot2)")
+	}
 	res = append(res, call)
 	return res
 }
